@@ -129,12 +129,13 @@ def wit(c, frq, mean, std, sr, extra):
 SHAPE = [None]      # witness shaping for the instances that assume two maxima (set per path)
 
 
-def consistent(rep, ctx, label, verdict, holds_if_one, fails_if_zero, W, key, exclude=None):
+def consistent(rep, ctx, label, verdict, holds_if_one, fails_if_zero, W, key, exclude=None, shape_extra=None):
     """verdict 1 => criterion (weak form) holds; verdict 0 => criterion (strong form) does not hold."""
     neg = z3.Not(holds_if_one) if verdict else fails_if_zero
     if exclude is not None:
         neg = z3.And(neg, z3.Not(exclude))
-    rep.prove(ctx, f"{label}: verdict {verdict} is the guideline's", neg, witness=W, key=key, real=True, timeout_ms=20000, shape=SHAPE[0])
+    rep.prove(ctx, f"{label}: verdict {verdict} is the guideline's", neg, witness=W, key=key, real=True, timeout_ms=20000,
+              shape=(list(SHAPE[0] or []) + list(shape_extra)) if shape_extra else SHAPE[0])
 
 
 def run_reliability(rep, tier, grid, rng, prior=False):
@@ -233,7 +234,16 @@ def run_clarity(rep, tier, grid, rng, prior=False):
         eps = z3.If(f0 < qval(0.2), qval(0.25), z3.If(f0 < qval(0.5), qval(0.2), z3.If(f0 < 1, qval(0.15), z3.If(f0 < 2, qval(0.1), qval(0.05)))))
         theta = z3.If(f0 < qval(0.2), qval(3.0), z3.If(f0 < qval(0.5), qval(2.5), z3.If(f0 < 1, qval(2.0), z3.If(f0 < 2, qval(1.78), qval(1.58)))))
         consistent(rep, ctx, "clarity v (sigma_f < eps(f0) f0, table with half-open bands)", v[4], fstd.e < eps * f0, fstd.e < eps * f0, W, "clarity-v")
-        consistent(rep, ctx, "clarity vi (sigma_A(f0) < theta(f0))", v[5], s[j0].exp().e < theta, s[j0].exp().e < theta, W, "clarity-vi")
+        # witness shaping only (never part of the obligation): a model in which the uninterpreted exp is on the true side of every
+        # threshold of the table for every log-standard deviation, with a margin - such a witness survives the replay with the real exp
+        import math
+        sx = []
+        for k_ in range(n):
+            ek = s[k_].exp().e
+            for th in (3.0, 2.5, 2.0, 1.78, 1.58):
+                lo_, hi_ = qval(math.log(th) - 1e-6), qval(math.log(th) + 1e-6)
+                sx += [z3.Or(s[k_].e < lo_, s[k_].e > hi_), z3.Implies(s[k_].e < lo_, ek < qval(th)), z3.Implies(s[k_].e > hi_, ek > qval(th))]
+        consistent(rep, ctx, "clarity vi (sigma_A(f0) < theta(f0))", v[5], s[j0].exp().e < theta, s[j0].exp().e < theta, W, "clarity-vi", shape_extra=sx)
         rep.sample({"grid": grid, "range": rng, "peak_index": j0, "verdicts": v})
 
 
